@@ -110,7 +110,7 @@ def pending_keys(kind_name, l):
 def first_value_kind(kind_name):
     """learners that keep the first value told for a point"""
     b = kind_name.split(":")[-1]
-    return b.startswith("l1d") or b.startswith("lnd") or b == "avg"
+    return b.startswith("l1d") or b.startswith("lnd") or b == "avg"  # Learner2D and SequenceLearner keep the last value
 
 
 class Runner:
@@ -164,7 +164,7 @@ class Runner:
             if kn.split(":")[-1] == "seq" and op[1] + len(self.told) + len(self.outstanding) > 10:
                 return None  # keep SequenceLearner children away from exhaustion inside wrappers
             n = op[1]
-            if n == 0 and kn.split(":")[-1] in ("avg", "avg1d", "lnd2", "lnd3"):
+            if n == 0 and kn.split(":")[-1] in ("avg", "avg1d", "lnd2", "lnd3", "l2d"):
                 n = 1  # ask(0) raises in these learners (division by n / unpacking an empty zip); not a C09/C10 matter
             return ("ask", n, op[2])
         if op[0] == "tell_asked" and self.outstanding:
